@@ -100,3 +100,9 @@ Definition in_default_value_rendering (c : c02case) : bool :=
   | _ => false
   end.
 Definition known_default_value_rendering (c : c02case) : bool := negb (in_default_value_rendering c).
+
+(* K15: a GraphQL type (enum, input, object ...), fragment or operation whose NAME is a Rust keyword is
+   emitted as an item of that name: the module is not Rust *)
+Definition in_keyword_type_name (c : c02case) : bool :=
+  match gen_model (c2_g c) with GUnparsable => true | _ => false end.
+Definition known_keyword_type_name (c : c02case) : bool := negb (in_keyword_type_name c).
